@@ -1323,6 +1323,21 @@ class DNA(symbolic.Object):
     Returns:
       A DNA generated from the user function.
     """
+    dna = cls._from_fn(dna_spec, generator_fn)
+    # NOTE: like `from_numbers`, hand out a DNA whose nodes are bound to the
+    # decision points of their positions (sub-trees are validated, not bound,
+    # by the recursion below).
+    dna.use_spec(dna_spec)
+    return dna
+
+  @classmethod
+  def _from_fn(
+      cls,
+      dna_spec: DNASpec,
+      generator_fn: Callable[['DecisionPoint'],
+                             Union[List[int], float, str, 'DNA']]
+      ) -> 'DNA':
+    """Generates an unbound DNA with user generator function."""
     if not isinstance(dna_spec, DNASpec):
       raise TypeError(
           f'Argument \'dna_spec\' should be DNASpec type. '
@@ -1332,7 +1347,7 @@ class DNA(symbolic.Object):
       # Generate values for Space.
       children = []
       for child_spec in dna_spec.elements:
-        children.append(DNA.from_fn(child_spec, generator_fn))
+        children.append(DNA._from_fn(child_spec, generator_fn))
       if len(children) == 1:
         return children[0]
       dna = DNA(None, children)
@@ -1360,7 +1375,7 @@ class DNA(symbolic.Object):
                 f'Choice out of range. Value: {choice}, '
                 f'Candidates: {len(dna_spec.candidates)}, '
                 f'Location: {choice_location.path}.')
-          child_dna = DNA.from_fn(dna_spec.candidates[choice], generator_fn)
+          child_dna = DNA._from_fn(dna_spec.candidates[choice], generator_fn)
           children.append(DNA(choice, [child_dna]))
         dna = DNA(None, children)
     else:
